@@ -1,5 +1,6 @@
 CONSTANTS
   MaxTx = 3
+  MaxInv = 3
 INIT GInit
 NEXT GNext
 INVARIANT Emit
